@@ -81,8 +81,10 @@ class SList(Sym):
     symbolic index (memoised on the syntactic index term), or None when the list is over
     a z3 sequence ``seq``.
     ``uid``: name used for measures.
+    ``parts``: None for a base sequence, or -- for a concatenation -- the list of its pieces
+    ``('elem', value)`` / ``('base', SList)`` in order (structural normal form, used by str.join).
     """
-    __slots__ = ('length', 'elem', 'uid', 'cache', 'seq', 'immutable', 'ident')
+    __slots__ = ('length', 'elem', 'uid', 'cache', 'seq', 'immutable', 'parts', 'elem_ty', 'ident')
 
     def __init__(self, length, elem, uid, seq=None, ident=None):
         self.length = length
@@ -94,6 +96,8 @@ class SList(Sym):
         # identity for ghost functions of the list: (family name, index terms) -- an input list is its own
         # family; a list-valued attribute of an indexed / by-id object is identified by the owner's index
         self.ident = ident
+        self.elem_ty = None        # shape of the elements, when created from a ListOf shape
+        self.parts = None
 
     def __repr__(self):
         return 'SList(%s, len=%s)' % (self.uid, self.length)
